@@ -287,5 +287,7 @@ pub fn run(r: &mut Runner) {
         let bases: Vec<[f64; 2]> = vec![[1.0471975511965976, 1.1102230246251565e-16], [45.0, 2f64.powi(-61)], [30.0, 0.0], [90.0, 2f64.powi(-60)], [1e-3, 1e-20], [12345.678, 0.0]];
         let groups = crate::hist::unary_groups(&[Op::to_degrees, Op::to_radians], &bases, [2.0, 0.0]);
         crate::hist::explore(r, "histories: to_degrees/to_radians", &groups, 3, &hist_judge, 14u64 << 55);
+        // cross-family histories: the same judged calls, preceded by every other public function on the same operands
+        crate::hist::explore_mixed(r, "cross-family histories: any public call, then to_degrees/to_radians", &groups[..groups.len().min(2)], 2, &hist_judge, (14u64 << 55) + (1u64 << 53));
     }
 }
